@@ -138,6 +138,7 @@ def step (orc : Nat → Nat) (st : State) : CQRun.Op → Res
   | .add time val => add orc st time val
   | .cancel k => cancel orc st k
   | .fetch => fetch orc st
+  | .peek => { st, out := .cq (.peeked (CQ.nextTime st.q.1)) }
 
 /-- keys released by `Drop for CQueue`, in order -/
 def dropKeys (st : State) : List Nat :=
